@@ -6,7 +6,7 @@
      F name\x1ftext            contents of a configuration file
      E w1\x1fw2...             one script call (exec): prints "<outcome> <bodyclass> | cvs | biases"
      C text                    engine-side configuration (do_event EConfig)
-     X                         a step (do_event EStep)
+     X [0|1]                   a step (0: it returned an error) with the observation registered by the preceding O lines
      W                         table_wf and state_wf
      K name                    entry_class / is_pseudo / the witness command line of a table entry
      G id:x:y:z id:x:y:z|...   groups ('|' between groups) of (atom id, contribution as three hex floats) in listing order:
@@ -63,8 +63,24 @@ let show_outcome o = match o with
   | ErrTooFewArgs _ -> "error toofew"
   | ErrTooManyArgs _ -> "error toomany"
 
+let fl s = float_of_string s
+let toks s = List.filter (fun w -> w <> "") (Stdlib.String.split_on_char ' ' s)
+let rec triples l = match l with a :: b :: c :: r -> ((fl a, fl b), fl c) :: triples r | _ -> []
+let show_vec ((x, y), z) = Printf.sprintf "%h %h %h" x y z
+let show_q (q : float qresult) = match q with
+  | QErr -> "qerr" | QOk -> "qok"
+  | QReal x -> Printf.sprintf "real %h" x | QReal6 x -> Printf.sprintf "real6 %h" x
+  | QInt z -> Printf.sprintf "int %d" (int_of_z z)
+  | QInts l -> "ints " ^ Stdlib.String.concat " " (List.map (fun z -> string_of_int (int_of_z z)) l)
+  | QVecs l -> "vecs " ^ Stdlib.String.concat " " (List.map show_vec l)
+  | QReals6 l -> "reals6 " ^ Stdlib.String.concat " " (List.map (Printf.sprintf "%h") l)
+  | QNames l -> "names " ^ Stdlib.String.concat " " (List.map ocaml_string_of l)
+
 let () =
   let tbl = ref [] and st = ref { st_cvs = []; st_biases = [] } in
+  let sem : float sem ref = ref { sm_objs = !st; sm_cv = []; sm_bias = []; sm_mod = None } in
+  let ob_mod = ref None and ob_cv = ref [] and ob_bias = ref [] in
+  let sync_objs () = sem := resync { sm_objs = !st; sm_cv = []; sm_bias = []; sm_mod = None } !st in
   try
     while true do
       let line = input_line stdin in
@@ -78,9 +94,9 @@ let () =
          | _ -> print_endline "?")
       | 'S' ->
         (match Stdlib.String.split_on_char ' ' rest with
-         | ["clear"] -> st := { st_cvs = []; st_biases = [] }; print_endline "ok"
-         | ["cv"; n] -> st := { !st with st_cvs = !st.st_cvs @ [cs n] }; print_endline "ok"
-         | "bias" :: n :: l -> st := { !st with st_biases = !st.st_biases @ [(cs n, List.map cs l)] }; print_endline "ok"
+         | ["clear"] -> st := { st_cvs = []; st_biases = [] }; sync_objs (); print_endline "ok"
+         | ["cv"; n] -> st := { !st with st_cvs = !st.st_cvs @ [cs n] }; sync_objs (); print_endline "ok"
+         | "bias" :: n :: l -> st := { !st with st_biases = !st.st_biases @ [(cs n, List.map cs l)] }; sync_objs (); print_endline "ok"
          | _ -> print_endline "?")
       | 'P' ->
         (match split_us rest with
@@ -93,15 +109,41 @@ let () =
          | _ -> print_endline "?")
       | 'E' ->
         let words = words_of rest in
-        let ((st', o), c) = exec !tbl parse_conf read_file !st words in
-        st := st';
-        Printf.printf "%s %s | %s\n" (show_outcome o) (match c with BOk -> "ok" | BErr -> "err" | BUnknown -> "unk") (show_state st')
+        let ((_, o), c) = exec !tbl parse_conf read_file !st words in
+        let ((sem', o'), q) = exec_sem !tbl parse_conf read_file !sem words in
+        sem := sem'; st := sem'.sm_objs;
+        if show_outcome o <> show_outcome o' then print_string "MODEL-INCONSISTENT ";
+        Printf.printf "%s %s | %s | %s\n" (show_outcome o) (match c with BOk -> "ok" | BErr -> "err" | BUnknown -> "unk") (show_state !st) (show_q q)
       | 'C' ->
-        st := do_event !tbl parse_conf read_file !st (EConfig (cs rest));
+        sem := do_sevent !tbl parse_conf read_file !sem (SConfig (cs rest)); st := !sem.sm_objs;
         Printf.printf "config | %s\n" (show_state !st)
       | 'X' ->
-        st := do_event !tbl parse_conf read_file !st EStep;
+        (* a step; the observation registered by the preceding O lines (none: nothing is known afterwards) *)
+        let md = match !ob_mod with Some m -> m | None ->
+          { md_step = Z0; md_energy = nan; md_ids = []; md_masses = []; md_charges = []; md_pos = []; md_af = []; md_tf = [] } in
+        let had = !ob_mod <> None in
+        sem := do_sevent !tbl parse_conf read_file !sem (SStep { ob_ok = (rest <> "0"); ob_mod = md; ob_cv = !ob_cv; ob_bias = !ob_bias });
+        if not had then sem := { !sem with sm_mod = None };
+        ob_mod := None; ob_cv := []; ob_bias := [];
         Printf.printf "step | %s\n" (show_state !st)
+      | 'O' ->
+        (* OM step energy | ids | masses | charges | pos | af | tf     OV name value af tf active | atoms | grads     OB name energy *)
+        (match Stdlib.String.split_on_char '|' rest with
+         | hd :: parts ->
+           (match toks hd, parts with
+            | ["M"; step; en], [ids; ms; ch; pos; af; tf] ->
+              ob_mod := Some { md_step = z_of_int (int_of_string step); md_energy = fl en;
+                               md_ids = List.map (fun t -> z_of_int (int_of_string t)) (toks ids);
+                               md_masses = List.map fl (toks ms); md_charges = List.map fl (toks ch);
+                               md_pos = triples (toks pos); md_af = triples (toks af); md_tf = triples (toks tf) };
+              print_endline "ok"
+            | ["V"; n; v; af; tf; act], [atoms; grads] ->
+              ob_cv := !ob_cv @ [(cs n, { cd_value = fl v; cd_af = fl af; cd_tf = fl tf; cd_active = (act = "1");
+                                          cd_atoms = List.map (fun t -> z_of_int (int_of_string t)) (toks atoms); cd_grads = triples (toks grads) })];
+              print_endline "ok"
+            | ["B"; n; en], [] -> ob_bias := !ob_bias @ [(cs n, fl en)]; print_endline "ok"
+            | _ -> print_endline "?")
+         | _ -> print_endline "?")
       | 'W' -> Printf.printf "wf table=%b state=%b\n" (table_wf !tbl) (state_wf !st)
       | 'K' ->
         (match lookup !tbl (cs rest) with
